@@ -248,3 +248,19 @@ mut("pred-is-visible-off-by-one", "C13", "yrs/src/state_vector.rs", "        sel
 mut("pred-detect-conflict-no-right-left", "C01", B, "            (None, Some(right)) => right.left.is_some(), // !target.left && target.right.left !== null", "            (None, Some(_right)) => false,", "C01.p", also=["C04"])
 mut("pred-benign-detect-conflict-if-chain", "C01", B, "        match (&self.left, &self.right) {\n            (None, None) => true,                        // !target.left && !target.right\n            (None, Some(right)) => right.left.is_some(), // !target.left && target.right.left !== null\n            (Some(left), _) => left.right != self.right, // target.left && target.left.right !== target.right\n        }",
     "        if let Some(left) = &self.left {\n            left.right != self.right\n        } else if let Some(right) = &self.right {\n            right.left.is_some()\n        } else {\n            true\n        }", "", kind="benign", also=["C04"])
+
+# ---------------------------------------------------------------- rules added after the third seeded round
+mut("c02h-frontier-overwritten", "C02", U, "                        *local_clock = (*local_clock).max(id.clock + len);", "                        *local_clock = id.clock + len;", "C02.h", also=["C01", "C06"])
+mut("c02h-benign-named-next", "C02", U, "                        *local_clock = (*local_clock).max(id.clock + len);", "                        let next = id.clock + len;\n                        *local_clock = (*local_clock).max(next);", "", kind="benign", also=["C01", "C06"])
+mut("c02g-quote-end-only-across-clients", "C02", U, "                        if start != end {", "                        if start.map(|id| id.client) != end.map(|id| id.client) {", "C02.g", also=["C20"])
+mut("c08a-diff-empty-shortcut", "C08", "yrs/src/alt.rs", "    let update = Update::decode_v1(update)?;\n    let mut encoder = EncoderV1::new();\n    update.encode_diff(&sv, &mut encoder);",
+    "    let update = Update::decode_v1(update)?;\n    if !update.extends(&sv) {\n        return Ok(Update::EMPTY_V1.to_vec());\n    }\n    let mut encoder = EncoderV1::new();\n    update.encode_diff(&sv, &mut encoder);", "C08.a")
+mut("c09dict-wrong-counter", "C09", "yrs/src/id_map.rs", "                            visited_attr_names.insert(name, new_name_id);", "                            visited_attr_names.insert(name, new_attr_id);", "C09.dict")
+mut("c15g-gc-run-merge", "C15", BS, "                    left.len = right.clock - left.clock + right.len;", "                    left.merge(right);", "C15.g")
+mut("c15g-benign-named-extent", "C15", BS, "                    left.len = right.clock - left.clock + right.len;", "                    let gap = right.clock - left.clock;\n                    left.len = gap + right.len;", "", kind="benign")
+mut("c16e-from-store-items-only", "C16", "yrs/src/id_set.rs", "                let block = block.as_ref();\n                if block.is_deleted() {\n                    let (start, end) = block.clock_range();\n                    deletes.insert(start..(end + 1));\n                }",
+    "                let block = block.as_ref();\n                if let Some(item) = block.as_item() {\n                    if item.is_deleted() {\n                        let (start, end) = block.clock_range();\n                        deletes.insert(start..(end + 1));\n                    }\n                }", "C16.e", also=["C07", "C13"])
+mut("c17e-walker-no-root-stop", "C17", "yrs/src/types/xml.rs", "                                } else if current.parent == self.root {\n                                    n = None;\n                                } else {", "                                } else {", "C17.e")
+mut("c19g-empty-attrs-plain-insert", "C19", "yffi/src/lib.rs", "        if let Some(attrs) = map_attrs(attrs.read().into()) {\n            txt.insert_with_attributes(txn, index, chunk, attrs)\n        } else {\n            panic!(\"ytext_insert: passed attributes are not of map type\")\n        }",
+    "        match map_attrs(attrs.read().into()) {\n            Some(attrs) if attrs.is_empty() => txt.insert(txn, index, chunk),\n            Some(attrs) => txt.insert_with_attributes(txn, index, chunk, attrs),\n            None => panic!(\"ytext_insert: passed attributes are not of map type\"),\n        }", "C19.g")
+mut("pred-has-added-by-clock", "C11", T, "    pub(crate) fn has_added(&self, id: &ID) -> bool {\n        self.insert_set.contains(id)", "    pub(crate) fn has_added(&self, id: &ID) -> bool {\n        id.clock >= self.before_state().get(&id.client)", "C11.p")
